@@ -1,26 +1,44 @@
 """C07: committors and mean first-passage times satisfy their first-step equations."""
-import itertools
+import itertools, os, sys
 from fractions import Fraction as F
 import numpy as np
-from core import cn, cq, clist
+from core import cn, cq, clist, VERIF
+sys.path.insert(0, os.path.join(VERIF, "translator"))
+import tr_tpt
 
 PID = "C07"
 PROPS_FILE = "Props/C07.v"
-MODEL_TARGETS = ["Model/TPT.vo"]
-CASE_HEADER = ("From Coq Require Import List ZArith QArith Bool.\nFrom EV Require Import TPT.\n"
+MODEL_TARGETS = ["Model/TPT.vo", "Gen/TptGen.vo", "Model/TPTGen.vo"]
+GEN_FILES = ["Gen/TptGen.v"]
+CASE_HEADER = ("From Coq Require Import List ZArith QArith Bool.\nFrom EV Require Import TPT TptBase TptGen TPTGen.\n"
                "Import ListNotations.\n")
+
+
+def translate(repo):
+    return tr_tpt.translate(repo)
+
+
 RULE = ("irreducible row-stochastic matrices with 3..7 states (thorough: ..9) from small integer count matrices with "
         "zeros (symmetric = reversible, and non-symmetric; half of them with power-of-two row sums so that the double "
         "matrix is exactly stochastic), plus a few reducible chains whose states all reach the absorbing set; source and "
         "sink sets disjoint with 1..3 members each (thorough: every such pair for small chains), plus overlapping / "
         "duplicated sets and empty source sets (correspondence only) and out-of-range indices (error clause); lag in {1, 2.5, 10}; "
-        "populations computed or supplied; every case is run on the real committors/mfpts with dense, csr, csc, coo and "
-        "lil input; the exact model (Coq, vm_compute over Q) must agree to 1e-9 relative, the oracle evaluates the "
+        "populations computed or supplied; round 2: sink sets of 2..3 members with direct transitions between the sinks, "
+        "irreducible PERIODIC chains (cyclic classes, period 2, 3 or n, dyadic and not) mostly through the all-pairs path "
+        "with populations=None, and sequence cases (several calls in one process with the same number of states: "
+        "mfpts(T, A) then mfpts(T', B) with A not a subset of B, committors/mfpts interleaved, and the all-pairs table "
+        "built column by column in a random order) whose every call is checked like a stand-alone case; every case is run on the real committors/mfpts with dense, csr, csc, coo and "
+        "lil input; the definitions REGENERATED from the current source (Gen/TptGen.v, vm_compute over Q) must agree to 1e-9 relative "
+        "and, for chains with at most 4 states, coincide exactly with the hand-written model (for all inputs that is a theorem), the oracle evaluates the "
         "first-step equations, bounds, column agreement, lag linearity, container agreement and input preservation on "
         "the implementation's output. non-trivial := at least 3 states and at least one state that is neither source "
         "nor sink with a committor strictly between 0 and 1 (committors) / at least two non-sink states (mfpts)")
-TRUSTED = ["modelled not verified: scipy.sparse.linalg.spsolve, np.linalg.solve, np.linalg.inv (model: exact Gauss-Jordan "
-           "over Q whose every output is re-checked by is_solution before use), eq_probs / scipy.linalg.eig (model: exact "
+TRUSTED = ["translator/tr_tpt.py (fail-closed symbolic reading of _I_m_Q / committors / mfpts into Gen/TptGen.v) and the meaning "
+           "of the array vocabulary Base/TptBase.v (NumPy fancy indexing, item assignment, broadcasting, axis sums) -- both "
+           "exercised by the correspondence on every case; translator/tr_tpt_selftest.py replays 35 source mutations",
+           "modelled not verified: scipy.sparse.linalg.spsolve, np.linalg.solve, np.linalg.inv (model: exact Gauss-Jordan "
+           "over Q, now proved sound and total on matrices with trivial kernel (Proof/TPTExist.v); its output is still "
+           "re-checked by is_solution before use), eq_probs / scipy.linalg.eig (model: exact "
            "stationary vector, re-checked), NumPy fancy indexing and scipy.sparse container conversions",
            "for double matrices that are not exactly row-stochastic (row sums not a power of two) the populations=None "
            "cases hand the eigen-solver's eq_probs output to the model as the populations argument",
@@ -31,7 +49,8 @@ SHARD = 24
 EXHAUSTIVE = {"thorough": False}
 ESSENTIAL_TAGS = ["comm", "comm-multi-sink", "comm-multi-source", "mfpt-sinks", "mfpt-multi-sink", "mfpt-all",
                   "mfpt-all-pops-given", "reversible", "nonreversible", "dyadic", "nondyadic", "index-error",
-                  "lag-not-1", "interior-committor"]
+                  "lag-not-1", "interior-committor", "periodic", "periodic-all-pairs-pops-none", "sink-to-sink",
+                  "seq-sinks-not-nested", "seq-column-by-column", "seq-committors-and-mfpts", "seq-all-calls-returned"]
 CONTAINERS = ["dense", "csr", "csc", "coo", "lil"]
 TOL = F(1, 10 ** 9)
 
@@ -74,16 +93,85 @@ def _counts(rng, n, reversible, dyadic):
                 for j in range(i):
                     C[i][j] = C[j][i]
         if dyadic:
-            # make every row sum a power of two by topping up the diagonal (keeps symmetry)
-            for i in range(n):
-                s = sum(C[i])
-                p = 8
-                while p < s + (0 if C[i][i] else 1):
-                    p *= 2
-                C[i][i] += p - s
+            _top_up(C)
         if all(sum(r) > 0 for r in C) and _strongly_connected(C):
             return C
     return [[1] * n for _ in range(n)]
+
+
+def _top_up(C):
+    """make every row sum a power of two by topping up the diagonal (keeps symmetry)"""
+    for i in range(len(C)):
+        t = sum(C[i])
+        p = 8
+        while p < t + (0 if C[i][i] else 1):
+            p *= 2
+        C[i][i] += p - t
+
+
+def _period(C):
+    """period of an irreducible chain: gcd over the edges i->j of level[i] + 1 - level[j] (BFS levels from state 0)"""
+    from math import gcd
+    n = len(C)
+    lev, st = {0: 0}, [0]
+    while st:
+        nxt = []
+        for i in st:
+            for j in range(n):
+                if C[i][j] > 0 and j not in lev:
+                    lev[j] = lev[i] + 1
+                    nxt.append(j)
+        st = nxt
+    g = 0
+    for i in range(n):
+        for j in range(n):
+            if C[i][j] > 0 and i in lev and j in lev:
+                g = gcd(g, lev[i] + 1 - lev[j])
+    return abs(g)
+
+
+def _periodic_counts(rng, n, dyadic):
+    """irreducible chain of period d >= 2: the states are split into d cyclic classes and every transition goes from a
+    class to the next one (d = n: a deterministic cycle, i.e. a permutation matrix)"""
+    for _ in range(200):
+        d = min(n, rng.choice([2, 2, 3, n]))
+        perm = list(range(n))
+        rng.shuffle(perm)
+        cls = {i: k % d for k, i in enumerate(perm)}
+        C = [[0] * n for _ in range(n)]
+        for i in range(n):
+            nxt = [j for j in range(n) if cls[j] == (cls[i] + 1) % d]
+            tg = rng.sample(nxt, rng.randint(1, len(nxt)))
+            if dyadic:
+                w = {j: 1 for j in tg}
+                for _ in range(8 - len(tg)):
+                    w[rng.choice(tg)] += 1
+            else:
+                w = {j: rng.randint(1, 6) for j in tg}
+            for j, x in w.items():
+                C[i][j] = x
+        if _strongly_connected(C) and _period(C) > 1:
+            return C
+    return [[1 if j == (i + 1) % n else 0 for j in range(n)] for i in range(n)]
+
+
+def _multi_sets(rng, n):
+    """1..2 sources and 2..3 sinks, at least one state left over (n >= 4)"""
+    kt = rng.choice([2, 2, 3]) if n >= 5 else 2
+    ks = 2 if (n - kt >= 3 and rng.random() < 0.4) else 1
+    perm = list(range(n))
+    rng.shuffle(perm)
+    return perm[:ks], perm[ks:ks + kt]
+
+
+def _link(C, A, rev):
+    """direct transitions between the members of A (in both directions when the chain is to stay symmetric)"""
+    for a in A:
+        for b in A:
+            if a != b and C[a][b] == 0:
+                C[a][b] = 1
+                if rev:
+                    C[b][a] = 1
 
 
 def _reducible_counts(rng, n):
@@ -162,6 +250,61 @@ def generate(rng, tier):
             cases.append({"kind": "comm", "n": n, "counts": C, "src": src, "snk": [bad] + snk})
         else:
             cases.append({"kind": "mfpt_s", "n": n, "counts": C, "snk": snk + [bad], "lag": "1"})
+    big_sizes = [z for z in sizes if z >= 4]
+    for k in range(24 * mult):     # sink sets with direct transitions between the sinks (sink rows/columns of T non-zero)
+        n = rng.choice(big_sizes)
+        rev, dy = rng.random() < 0.5, rng.random() < 0.5
+        C = _counts(rng, n, rev, False)
+        src, snk = _multi_sets(rng, n)
+        _link(C, snk, rev)
+        if dy:
+            _top_up(C)
+        if k % 2 == 0:
+            cases.append({"kind": "comm", "n": n, "counts": C, "src": src, "snk": snk})
+        else:
+            cases.append({"kind": "mfpt_s", "n": n, "counts": C, "snk": snk, "lag": rng.choice(lags)})
+    for k in range(32 * mult):     # irreducible PERIODIC chains (period 2, 3 or n): eigenvalues of modulus 1 besides 1
+        n = rng.choice(sizes)
+        C = _periodic_counts(rng, n, rng.random() < 0.6)
+        if k % 4 == 3:
+            src, snk = _sets(rng, n)
+            cases.append({"kind": "comm", "n": n, "counts": C, "src": src, "snk": snk})
+        elif k % 4 == 2:
+            _, snk = _sets(rng, n)
+            cases.append({"kind": "mfpt_s", "n": n, "counts": C, "snk": snk, "lag": rng.choice(lags)})
+        else:
+            cases.append({"kind": "mfpt_a", "n": n, "counts": C, "lag": rng.choice(lags),
+                          "pops": "none" if k % 8 != 0 else "given"})
+    for k in range(15 * mult):     # sequence probe: calls in one process, same number of states, A not a subset of B
+        n = rng.choice([3, 4, 4, 5, 6])
+        calls = []
+        if k % 3 == 2:
+            # the all-pairs table built column by column (sinks [j] one after the other, in a random order)
+            C = _counts(rng, n, rng.random() < 0.5, rng.random() < 0.5)
+            order = list(range(n))
+            rng.shuffle(order)
+            lag = rng.choice(lags)
+            calls = [{"kind": "mfpt_s", "n": n, "counts": C, "snk": [j], "lag": lag} for j in order]
+        else:
+            C1 = _counts(rng, n, rng.random() < 0.5, rng.random() < 0.5)
+            C2 = _counts(rng, n, rng.random() < 0.5, rng.random() < 0.5)
+            for _ in range(50):
+                _, A = _sets(rng, n)
+                sB, B = _sets(rng, n)
+                if not set(A) <= set(B):
+                    break
+            else:
+                A, B, sB = [0], [1], [2]
+            if k % 3 == 0:
+                calls = [{"kind": "mfpt_s", "n": n, "counts": C1, "snk": A, "lag": rng.choice(lags)},
+                         {"kind": "mfpt_s", "n": n, "counts": C2, "snk": B, "lag": rng.choice(lags)}]
+            else:
+                sA = [i for i in range(n) if i not in A][:1]
+                calls = [{"kind": "comm", "n": n, "counts": C1, "src": sA, "snk": A},
+                         {"kind": "mfpt_s", "n": n, "counts": C1, "snk": A, "lag": "1"},
+                         {"kind": "comm", "n": n, "counts": C2, "src": sB, "snk": B},
+                         {"kind": "mfpt_s", "n": n, "counts": C2, "snk": B, "lag": "1"}]
+        cases.append({"kind": "seq", "n": n, "calls": calls})
     if big:
         # small scope, exhaustive in the sets: every disjoint non-empty pair with <= 3 members each
         for n in (3, 4, 5):
@@ -210,6 +353,9 @@ def _call(fn):
 
 
 def run_impl(c):
+    if c["kind"] == "seq":
+        # consecutive calls in this process: anything kept between calls (a cached work array) shows up in the later ones
+        return {"calls": [run_impl(x) for x in c["calls"]]}
     from enspara.tpt import committors, mfpts
     from enspara.msm.transition_matrices import eq_probs
     T = _tprob(c)
@@ -276,6 +422,14 @@ def _flat(v):
 
 
 def oracle(c, r):
+    if c["kind"] == "seq":
+        seen, out = set(), []
+        for k, (x, rx) in enumerate(zip(c["calls"], r["calls"])):
+            for key, msg in oracle(x, rx):
+                if key not in seen:
+                    seen.add(key)
+                    out.append((key, "call %d of the sequence: %s" % (k, msg)))
+        return out
     out = []
     n = c["n"]
     # inputs are not modified (every container, every outcome)
@@ -384,20 +538,24 @@ def _nl(xs):
     return clist(xs, cn, "nat")
 
 
-def _model(c, r=None):
+def _model(c, r=None, g=""):
+    """g = "": the hand-written model (Model/TPT.v); g = "_g": the definitions regenerated from the source
+    (Gen/TptGen.v through Model/TPTGen.v)"""
     n = cn(c["n"])
     if c["kind"] == "comm":
-        return "(committors %s %s %s %s)" % (n, _qmat(c), _nl(c["src"]), _nl(c["snk"]))
+        return "(committors%s %s %s %s %s)" % (g, n, _qmat(c), _nl(c["src"]), _nl(c["snk"]))
     if c["kind"] == "mfpt_s":
-        return "(mfpts_sinks %s %s %s %s)" % (n, _qmat(c), _nl(c["snk"]), cq(F(c["lag"])))
+        return "(mfpts_sinks%s %s %s %s %s)" % (g, n, _qmat(c), _nl(c["snk"]), cq(F(c["lag"])))
     if c["pops"] == "none" and _dyadic(c["counts"]):
         # exactly stochastic double matrix: the model computes the stationary vector itself
-        return "(mfpts_all_default %s %s %s)" % (n, _qmat(c), cq(F(c["lag"])))
+        return "(mfpts_all_default%s %s %s %s)" % (g, n, _qmat(c), cq(F(c["lag"])))
     pops = r["pops"] if r is not None else run_impl(c)["pops"]
-    return "(mfpts_all %s %s %s %s)" % (n, _qmat(c), clist(pops, lambda x: cq(F(x)), "Q"), cq(F(c["lag"])))
+    return "(mfpts_all%s %s %s %s %s)" % (g, n, _qmat(c), clist(pops, lambda x: cq(F(x)), "Q"), cq(F(c["lag"])))
 
 
 def coq_check(c, r):
+    if c["kind"] == "seq":
+        return "(%s)" % " && ".join(coq_check(x, rx) for x, rx in zip(c["calls"], r["calls"]))
     tol = cq(TOL)
     two_d = c["kind"] == "mfpt_a"
     close = "(CaseLib.qll_close %s)" % tol if two_d else "(CaseLib.ql_close %s)" % tol
@@ -418,15 +576,24 @@ def coq_check(c, r):
         parts.append("CaseLib.opt_eqb %s m %s" % (close, exp))
         if x == r["dense"] and name != "dense":
             parts.pop()         # identical to the dense result: already compared
-    return "(let m := %s in %s)" % (_model(c, r), " && ".join("(%s)" % p for p in parts))
+    # m: the definitions regenerated from the current source, compared with the implementation; the hand-written model
+    # must give the very same value (that the two are equal is also a theorem: Proof/TptGenProofs.v)
+    # (evaluated for the chains with at most 4 states only: it doubles the cost of a case)
+    if c["n"] <= 4:
+        parts.append("CaseLib.opt_eqb %s m %s" % ("qll_eq" if two_d else "ql_eq", _model(c, r)))
+    return "(let m := %s in %s)" % (_model(c, r, "_g"), " && ".join("(%s)" % p for p in parts))
 
 
 def coq_show(c):
-    return _model(c)
+    if c["kind"] == "seq":
+        return "(%s)" % ", ".join(_model(x, None, "_g") for x in c["calls"])
+    return _model(c, None, "_g")
 
 
 # ----------------------------------------------------------------------------- accounting
 def nontrivial(c, r):
+    if c["kind"] == "seq":
+        return all(nontrivial(x, rx) for x, rx in zip(c["calls"], r["calls"]))
     if "val" not in r["dense"] or not _in_scope(c) or c["n"] < 3:
         return False
     if c["kind"] == "comm":
@@ -442,6 +609,18 @@ def _dyadic(C):
 
 
 def tags(c, r):
+    if c["kind"] == "seq":
+        t = ["seq"]
+        sn = [x["snk"] for x in c["calls"]]
+        if all(len(a) == 1 for a in sn) and sorted(a[0] for a in sn) == list(range(c["n"])):
+            t.append("seq-column-by-column")
+        elif any(not set(a) <= set(b) for a, b in zip(sn, sn[1:])):
+            t.append("seq-sinks-not-nested")
+        if any(x["kind"] == "comm" for x in c["calls"]):
+            t.append("seq-committors-and-mfpts")
+        if all("val" in rx["dense"] for rx in r["calls"]):
+            t.append("seq-all-calls-returned")
+        return t
     t = []
     C = c["counts"]
     n = c["n"]
@@ -452,6 +631,13 @@ def tags(c, r):
     t.append("n=%d" % n)
     if not _strongly_connected(C):
         t.append("reducible")
+    elif _period(C) > 1:
+        t.append("periodic")
+        if c["kind"] == "mfpt_a" and c["pops"] == "none":
+            t.append("periodic-all-pairs-pops-none")
+    snk = c.get("snk", [])
+    if len(set(snk)) > 1 and any(C[a][b] > 0 for a in snk for b in snk if a != b and a < n and b < n):
+        t.append("sink-to-sink")
     if c["kind"] == "comm":
         t.append("comm")
         if not _in_scope(c):
